@@ -281,7 +281,9 @@ type c16KV struct {
 	s *subEnv
 }
 
-func (k *c16KV) NewWriteBatch() kv.WriteBatch { return &c16Batch{WriteBatch: k.KV.NewWriteBatch(), s: k.s} }
+func (k *c16KV) NewWriteBatch() kv.WriteBatch {
+	return &c16Batch{WriteBatch: k.KV.NewWriteBatch(), s: k.s}
+}
 func (k *c16KV) KeyRangeScanReverse(lo, hi string) (kv.ReverseKeyIterator, error) {
 	it, err := k.KV.KeyRangeScanReverse(lo, hi)
 	if err != nil {
@@ -572,6 +574,7 @@ func c16SubCase(o *hx.Out, shard int64, prefix string, tag string, ntKey string,
 
 func c16SubMain(o *hx.Out, f hx.Flags) {
 	rng := hx.NewRng(f.Seed ^ 0x1616)
+	c16MultiGen(o, hx.NewRng(f.Seed^0x16aa), f.N/3+1) // several subscribers, subscribe / close in any order (c16_multi.go)
 	for c := 0; c < f.N; c++ {
 		crng := rng.Fork()
 		shard := int64(1 + crng.Intn(9))
